@@ -223,7 +223,7 @@ def run(ctx, rep):
         rep.ob('D-hash', '%s->%s' % (name, sym.short(cn)), False,
                'hash collection used beyond new/insert/contains in %s: %s (iteration order is randomised)' % (name, cn), loc=loc)
     rep.ob('D-hash', 'membership-only', not bad, '')
-    rep.floor('D-hash', 'hash collection call sites', len(ok), 4)
+    rep.info['hash collection call sites (membership only)'] = len(ok)   # no floor: replacing the set by a Vec<bool> is fine
 
     # D-addr -----------------------------------------------------------------------------------
     ad = scan_addr(f)
